@@ -136,7 +136,7 @@ class BufferUpdate(QueueNode):
                        text='Q == old(Q) + [pair(x, metadata)] and emitted == []'),
                 Clause('C03.returns_put_future', ['C03'], when='return', text='result == put_future',
                        note='the emitter waits until the item is inside the bounded queue'),
-                Clause('C04.holds_queued_element', ['C04'], when='return', text='delta >= occ(metadata)'),
+                Clause('C04.holds_queued_element', ['C04'], when='normal', text='delta >= occ(metadata)'),
                 ] + self.segment_clauses()
 
 
@@ -239,7 +239,7 @@ class DelayUpdate(DelayNode):
         return [Clause('C13.enqueues_fifo', ['C02', 'C13', 'C10'], when='return',
                        text='Q == old(Q) + [pair(x, metadata)] and emitted == []'),
                 Clause('C03.returns_put_future', ['C03'], when='return', text='result == put_future'),
-                Clause('C04.holds_queued_element', ['C04'], when='return', text='delta >= occ(metadata)'),
+                Clause('C04.holds_queued_element', ['C04'], when='normal', text='delta >= occ(metadata)'),
                 ] + self.segment_clauses()
 
 
@@ -344,7 +344,7 @@ class TimedWindowUpdate(TimedWindowNode):
                        text='list(self.metadata_buffer) == old(list(self.metadata_buffer)) + [metadata]'),
                 Clause('C03.returns_awaitable_of_last_emission', ['C03'], when='return', text='result == old(self.last)',
                        note='backpressure: the emitter waits for the previous batch to be consumed'),
-                Clause('C04.holds_buffered_element', ['C04'], when='return', text='delta >= occ(metadata)'),
+                Clause('C04.holds_buffered_element', ['C04'], when='normal', text='delta >= occ(metadata)'),
                 ] + self.segment_clauses()
 
 
@@ -503,7 +503,7 @@ class LatestUpdate(LatestNode):
         return [Clause('C14.slot_holds_newest_element', ['C14'], when='return',
                        text='list(self.next) == [x] and self.next_metadata == metadata and emitted == []'),
                 Clause('C14.posts_exactly_one_wakeup', ['C14'], when='return', text='len(callbacks) == 1'),
-                Clause('C04.holds_slot_element', ['C04'], when='return', text='delta >= occ(metadata) - old(occ(self.next_metadata))'),
+                Clause('C04.holds_slot_element', ['C04'], when='normal', text='delta >= occ(metadata) - old(occ(self.next_metadata))'),
                 ] + self.inv_clauses('return') + self.segment_clauses()
 
 
@@ -670,7 +670,7 @@ class SinkUpdate(NodeUpdate):
                    note='native coroutines and Tornado futures alike: whatever gen.isawaitable accepts reaches the emitter'),
             Clause('C03.synchronous_consumer_returns_nothing_to_wait_for', ['C03'], when='return',
                    text='implies(not awaitable(%s), len(result) == 0)' % res),
-            Clause('C04.holds_while_consumer_pending', ['C04'], when='return',
+            Clause('C04.holds_while_consumer_pending', ['C04'], when='normal',
                    text='implies(awaitable(%s), delta >= occ(metadata))' % res,
                    note='H1: an element handled by a sink whose awaitable has not finished must be held by the sink'),
         ] + user_raise_clauses(self)
@@ -698,6 +698,26 @@ class SinkReleaseWhenDone0(Segment):
                 Clause('C04.still_holds_while_consumer_pending', ['C04'], when='yield:1', text='delta == 0')] + self.segment_clauses()
 
 
+class SinkReleaseWhenDoneFailed(SinkReleaseWhenDone0):
+    """the consumer's awaitable raised: the exception propagates and the hold is NOT given up (C16)"""
+    start = 1
+    name = 'sink._release_when_done@1[consumer raised]'
+    props = ['C16', 'C04']
+    inflight_post = {}
+
+    def resume(self, I, loc):
+        return Resume(exc=VExc('UserError', payload='consumer'))
+
+    def clauses(self):
+        return [Clause('C16.failed_consumer_keeps_the_hold', ['C16', 'C04'], when='any', text='delta >= 0',
+                       note='the completion callback of an element whose consumer raised must never fire'),
+                Clause('C16.exception_reaches_the_emitter', ['C16'], fn=self.same_exception_clause('UserError'), when='any',
+                       kind='same_exception', replay={'exc': 'UserError'})]
+
+    def cover(self, outcomes):
+        return [('failure path explored', len(outcomes) >= 1)]
+
+
 class SinkReleaseWhenDone1(SinkReleaseWhenDone0):
     """... and releases the element only after it has completed"""
     start = 1
@@ -712,7 +732,7 @@ class SinkReleaseWhenDone1(SinkReleaseWhenDone0):
                        text='delta == -occ(metadata)')] + self.segment_clauses()
 
 
-ALL += [SinkUpdate, SinkReleaseWhenDone0, SinkReleaseWhenDone1]
+ALL += [SinkUpdate, SinkReleaseWhenDone0, SinkReleaseWhenDone1, SinkReleaseWhenDoneFailed]
 
 
 # --------------------------------------------------------------------------- partition (size flush, timeout flush)
@@ -798,13 +818,13 @@ class PartitionUpdate(PartitionNode):
             Clause('C08.flushes_exactly_when_n_elements_of_the_key', ['C08', 'C01', 'C02'], when='normal',
                    text='emitted == ([tup(%s + [x])] if %s else [])' % (oldb, full),
                    note='a partition is the n consecutive elements of one key, in arrival order; never more than n'),
-            Clause('C08.buffer_after_step', ['C08', 'C01'], when='normal',
+            Clause('C08.buffer_after_step', ['C08', 'C01', 'C02'], when='normal',
                    text='list(self._buffer[kx]) == ([] if %s else %s + [x])' % (full, oldb)),
             Clause('C10.partition_metadata_in_member_order', ['C10'], when='normal',
                    text='emitted_md == ([%s + metadata] if %s else [])' % (oldm, full)),
             Clause('C10.metadata_buffer_after_step', ['C10', 'C05'], when='normal',
                    text='list(self._metadata_buffer[kx]) == ([] if %s else %s + metadata)' % (full, oldm)),
-            Clause('C08.other_keys_untouched', ['C08', 'C01', 'C05'], when='normal',
+            Clause('C08.other_keys_untouched', ['C08', 'C01', 'C02', 'C05'], when='normal',
                    text='list(self._buffer[k_other]) == old(list(self._buffer[k_other])) and '
                         'list(self._metadata_buffer[k_other]) == old(list(self._metadata_buffer[k_other]))'),
             Clause('C08.flush_suspends_until_downstream_done', ['C03', 'C08'], when='yield:1', text=full),
@@ -843,7 +863,7 @@ class PartitionFlushTimer(PartitionNode):
     cls = 'partition'
     method = '_flush'
     start = 0
-    props = ['C08', 'C10', 'C05', 'C04']
+    props = ['C08', 'C10', 'C05', 'C04', 'C02']
     inflight_post = {'yield:1': 'occ(old(list(self._metadata_buffer[kx])))'}
 
     def make_locals(self, I, selfv):
@@ -860,7 +880,7 @@ class PartitionFlushTimer(PartitionNode):
         I.st.assume(z3.Length(z3.Select(bv, k)) >= 1)
 
     def clauses(self):
-        return [Clause('C08.timer_flush_emits_non_empty_partial_batch', ['C08'], when='yield:1',
+        return [Clause('C08.timer_flush_emits_non_empty_partial_batch', ['C08', 'C02'], when='yield:1',
                        text='emitted == [tup(old(list(self._buffer[kx])))] and len(old(list(self._buffer[kx]))) >= 1 '
                             'and len(old(list(self._buffer[kx]))) < self.n and len(self._buffer[kx]) == 0'),
                 Clause('C10.batch_metadata', ['C10'], when='yield:1',
@@ -1013,7 +1033,7 @@ class MapAsyncUpdate(MapAsyncNode):
         return [Clause('C03.returns_the_insert_job_task', ['C03', 'C02'], when='return',
                        text='len(created) == 1 and result == created[0] and insert_job_args[0] == x',
                        note='the emitter waits until the job has entered the bounded work queue'),
-                Clause('C04.holds_while_job_not_yet_queued', ['C04'], when='return', text='delta >= occ(metadata)',
+                Clause('C04.holds_while_job_not_yet_queued', ['C04'], when='normal', text='delta >= occ(metadata)',
                        note='H1: update returned to the emitter while the element only lives in a task that has not run yet'),
                 ] + self.segment_clauses()
 
